@@ -112,6 +112,10 @@ int main(int argc, char** argv) {
   std::stable_sort(groups.begin(), groups.end(), [](const ApiGroup& a, const ApiGroup& b) { return a.N > b.N; });
   ctx.name_metric(0, "blocks_allocated_by_constructors");
   ctx.parallel(groups.size(), [&](uint64_t gi) { run_group(groups[gi], o, [&](ApiCase& c) { four_runs(ctx, c, noff); }); }, "module entry points");
+  BoxOpts ol = large_layer(args.thorough(), o.cf);
+  std::vector<ApiGroup> lgroups = api_groups(ol);
+  std::stable_sort(lgroups.begin(), lgroups.end(), [](const ApiGroup& a, const ApiGroup& b) { return a.N > b.N; });
+  ctx.parallel(lgroups.size(), [&](uint64_t gi) { run_group(lgroups[gi], ol, [&](ApiCase& c) { four_runs(ctx, c, 4); }); }, "module entry points, large ring dimensions");
   std::vector<KernelGroup> kg = kernel_groups(args.thorough());
   ctx.parallel(kg.size(), [&](uint64_t gi) { run_kernel_group(kg[gi], args.thorough(), [&](ApiCase& c, const KernelInfo&) { four_runs(ctx, c, noff); }); }, "kernels");
   std::vector<uint64_t> ms;
